@@ -69,6 +69,8 @@ def run_case(case):
             continue
         c2 = case if mode == "pool" else {k: v for k, v in case.items() if k != "death_at_map"}
         c2 = dict(c2)
+        if case.get("ret") and not case.get("with_args"):
+            c2["ll_ret"] = case["ret"]  # the non-serial twin's likelihood returns numpy scalars / 1-element arrays
         if case.get("with_args"):
             c2["ll_args"] = True  # the non-serial twin receives its likelihood through log_likelihood_args / kwargs
         if case.get("scenario") == "pool_death" and mode == "pool":
@@ -125,6 +127,7 @@ def cases(seed, tier):
         if c["scenario"] == "pool_death":
             c["death_at_map"] = r.randrange(1, 25)
         c["n_orders"] = (2 if r.random() < 0.5 else 1) if tier == "quick" else r.choice([1, 2, 4, 8])
+        c["ret"] = r.choice([None, None, "npfloat", "arr0"])
         c["lazy"] = r.random() < 0.3
         c["with_args"] = r.random() < 0.3
         out.append(c)
